@@ -86,6 +86,28 @@ def check(res):
                      "a declaration located at file 17, line 64, column 8 printed after the literal with spelling %s shows %s" %
                      (sp.hex(), re.findall(rb"F[0-9a-fx]+:[0-9a-fx]+:[0-9a-fx]+ ", raw)[-1:] or raw[-40:]),
                      {"spelling_hex": sp.hex(), "output": raw.decode("latin1")[:600], "rerun": "echo %s | build/<hash>/plain/print_driver lit" % sp.hex()})
+    # the same spellings through the extracted model of the literal switch (LiteralModel.escape over the regenerated table)
+    gexe = build_gen_driver()
+    mo = run([gexe, "c18-escape"], input="\n".join((s_.hex() or "-") for s_ in spell) + "\n", timeout=3600).stdout.splitlines()
+    impl_text = {}
+    for l in ll:
+        m = parse_p(l)
+        if m and m.group(3) == "ok" and m.group(4) != "-" and m.group(1).startswith("lit:"):
+            raw = bytes.fromhex(m.group(4).replace("...", ""))
+            a, b = raw.find(b"v : int("), raw.rfind(b");F17")
+            if a >= 0 and b > a:
+                impl_text[m.group(1)[4:]] = raw[a + 8:b]
+    model_compared = 0
+    for s_, mline in zip(spell, mo):
+        h = s_.hex()
+        if h not in impl_text:
+            continue
+        model_compared += 1
+        want = None if mline.strip() == "NONE" else (b"" if mline.strip() == "-" else bytes.fromhex(mline.strip()))
+        if want != impl_text[h]:
+            viol("literal-model", "the literal with spelling %s is written as %r, the model of the escaping switch (LiteralModel over GenPrinter.gen_pr_literal) says %r" %
+                 (h, impl_text[h][:60], want if want is None else want[:60]), {"spelling_hex": h, "impl": impl_text[h].hex(), "model": mline.strip()},
+                 no_input=True)
     # ---- 3. statement nesting: whole units with deeply nested statements; indentation and stream state after each
     progs = []
     for i in range(40 if res.tier == "quick" else 600):
@@ -147,6 +169,6 @@ def check(res):
                 "all 125 three-deep nestings, scanned for control bytes",
         "samples": [zl[0][:200] if zl else "", "lit 01", progs[0][:200]],
         "traces_validated_against_impl": len(zl) + seen + nest_ok,
-        "input_distribution": {"zoo_attempts": len(zl), "zoo_outcomes": outcomes, "literal_spellings": len(spell), "nesting_programs": len(progs),
+        "input_distribution": {"literals_compared_with_model": model_compared, "zoo_attempts": len(zl), "zoo_outcomes": outcomes, "literal_spellings": len(spell), "nesting_programs": len(progs),
                                "enclosure_programs": len(dprogs)},
     })
